@@ -44,7 +44,7 @@ fn scenario(name: &str, n: usize) -> serde_json::Value {
         "connect_long" => {
             // names that do not fit sun_path (108 bytes): the call fails one way or another and leaves nothing behind
             for i in 0..n {
-                for len in [107usize, 108, 109, 150, 300] {
+                for len in [107usize, 108, 109, 150, 300, 600, 8192] {
                     let mut name = format!("/nonexistent/ipc-channel-verif-{}-", i);
                     while name.len() < len {
                         name.push('x');
@@ -171,6 +171,34 @@ fn scenario(name: &str, n: usize) -> serde_json::Value {
                 if r.is_ok() {
                     notes.push("send to a closed receiver succeeded".into());
                 }
+            }
+        },
+        "send_closed_probe" => {
+            // a refused send (receiver gone) that embedded a sender, a receiver and a region, the DESTINATION sender staying alive: what the
+            // value embedded is released with the failed send - the embedded sender's channel reports 'disconnected', sends to the
+            // embedded receiver's channel fail
+            use ipc_channel::ipc::{IpcError, TryRecvError};
+            for _ in 0..n.min(5) {
+                let (tx, rx) = ipc::channel::<(Vec<IpcSender<u32>>, ipc::IpcReceiver<u32>, IpcSharedMemory)>().unwrap();
+                drop(rx);
+                let (a, ar) = ipc::channel::<u32>().unwrap();
+                let (b, br) = ipc::channel::<u32>().unwrap();
+                let r = tx.send((vec![a.clone(), a], br, IpcSharedMemory::from_bytes(b"xyz")));
+                if r.is_ok() {
+                    notes.push("send to a closed receiver succeeded".into());
+                }
+                let _again = tx.send((vec![], ipc::channel::<u32>().unwrap().1, IpcSharedMemory::from_bytes(b"")));
+                match ar.try_recv() {
+                    Err(TryRecvError::IpcError(IpcError::Disconnected)) => {},
+                    other => notes.push(format!(
+                        "after a refused send that embedded the only senders of a channel (destination sender still alive), that channel reports {:?} instead of 'disconnected'",
+                        other.map(|_| "a message")
+                    )),
+                }
+                if b.send(1).is_ok() {
+                    notes.push("after a refused send that embedded a channel's receiver (destination sender still alive), a send on that channel succeeded".into());
+                }
+                drop(tx);
             }
         },
         "ser_fail_att" => {
